@@ -39,8 +39,8 @@ def revisionForIdent (m : LMap) : Nat → String → Option String → Except Er
     let revision ← match m.lookup rid with
       | some i => pure i
       | none =>
-        -- partial lookup over the keys of the map (revision ids *and* branch labels)
-        let cands := (m.keys.filter (fun k => k.1.length > 3 && k.1.startsWith rid)).map (·.1)
+        -- partial lookup over the keys of the map that are revision ids (branch-label keys are skipped)
+        let cands := (m.keys.filter (fun k => k.1.length > 3 && k.1.startsWith rid && k.2 == k.1)).map (·.1)
         let cands ← match branchRev, checkBranch with
           | some _, some b => filterForLineageKeys m fuel cands b false
           | _, _ => pure cands
